@@ -11,6 +11,7 @@ and runs the checks against it:
   3. records everything in /verif/seeded/<NAME>/ (patch.diff, demo.rs, meta.json).
 """
 import fcntl, json, os, re, shutil, subprocess, sys, time
+SR = os.environ.get("SEEDRUN", "/tmp/seedrun")
 
 def sh(cmd, cwd=None, env=None, timeout=3600):
     e = dict(os.environ)
@@ -36,6 +37,9 @@ def main():
         args = [d, ",".join([pm["property"]] + pm.get("also_checked", [])), "--name", recheck, "--skip-worktree"]
         if os.path.exists(f"{d}/patch-rebased.diff"):
             args += ["--rebased", f"{d}/patch-rebased.diff"]
+            if os.environ.get("SEED_WT"):
+                # confirm the re-applied patch again in a worktree of the current HEAD
+                args.remove("--skip-worktree")
     if "--name" in args:
         i = args.index("--name"); name = args[i + 1]; del args[i:i + 2]
     if "--skip-worktree" in args:
@@ -63,14 +67,21 @@ def main():
         pass
     out = {"name": name, "property": props[0], "also_checked": props[1:], "agent_meta": meta_in, "confirmed": {}, "checks": {}, "ran": []}
     wt = f"/tmp/wt/{wt_id}"
+    if recheck and rebased and os.environ.get("SEED_WT"):
+        wt = os.environ["SEED_WT"]
+        patch_wt = rebased
+    else:
+        patch_wt = patch
 
     # ---- 1. confirm in the agent's worktree
     if not skip_wt and os.path.isdir(wt):
         sh("git checkout -- . && git clean -fdq tests", cwd=wt)
-        rc, o = sh(f"git apply --check {patch}", cwd=wt)
+        rc, o = sh(f"git apply --check {patch_wt}", cwd=wt)
         out["confirmed"]["patch_applies"] = rc == 0
+        if patch_wt != patch:
+            out["confirmed"]["rebased_patch_confirmed_at_repo_head"] = sh("git rev-parse --short=7 HEAD", cwd=wt)[1].strip()
         if rc == 0:
-            sh(f"git apply {patch}", cwd=wt)
+            sh(f"git apply {patch_wt}", cwd=wt)
             t = f"zz_demo_{name.replace('-', '_')}"
             rc, o = sh("cargo test --workspace --no-fail-fast --offline 2>&1 | grep -E '^test result|\\.\\.\\. FAILED|^error' | sort | uniq -c | sort -rn | head -20", cwd=wt, timeout=3000)
             bad = [l for l in o.splitlines() if ("FAILED" in l or re.search(r"^\s*\d+ error", l) or re.search(r"[1-9]\d* failed", l))]
@@ -85,7 +96,7 @@ def main():
                 demo_out_with = o
             out["confirmed"]["demo_fails_with_patch"] = all(fails)
             out["confirmed"]["demo_output_with_patch_tail"] = demo_out_with.strip().splitlines()[-6:]
-            sh(f"git apply -R {patch}", cwd=wt)
+            sh(f"git apply -R {patch_wt}", cwd=wt)
             passes = []
             for _ in range(2):
                 rc, o = sh(f"cargo test --offline --test {t} 2>&1 | tail -15", cwd=wt, timeout=1500)
@@ -96,8 +107,8 @@ def main():
             sh("git checkout -- .", cwd=wt)
 
     # ---- 2. run the checks in an isolated copy
-    os.makedirs("/tmp/seedrun", exist_ok=True)
-    lock = open("/tmp/seedrun/.lock", "w")
+    os.makedirs(f"{SR}", exist_ok=True)
+    lock = open(f"{SR}/.lock", "w")
     fcntl.flock(lock, fcntl.LOCK_EX)
     try:
         # no -t: a file that differs (i.e. was patched by the previous seed) is copied back and gets
@@ -107,33 +118,33 @@ def main():
         # going on in /repo cannot leak into a seeded run
         rc, head = sh("git -C /repo rev-parse HEAD")
         head = head.strip()
-        stamp = "/tmp/seedrun/pristine.head"
+        stamp = f"{SR}/pristine.head"
         if not (os.path.exists(stamp) and open(stamp).read().strip() == head):
-            sh("rm -rf /tmp/seedrun/pristine && mkdir -p /tmp/seedrun/pristine && git -C /repo archive HEAD | tar -x -C /tmp/seedrun/pristine")
+            sh(f"rm -rf {SR}/pristine && mkdir -p {SR}/pristine && git -C /repo archive HEAD | tar -x -C {SR}/pristine")
             open(stamp, "w").write(head)
-        sh("rsync -rlpgoD --checksum --delete --exclude target --exclude .git /tmp/seedrun/pristine/ /tmp/seedrun/repo/")
-        rc, o = sh(f"patch -p1 --no-backup-if-mismatch < {rebased or patch}", cwd="/tmp/seedrun/repo")
+        sh(f"rsync -rlpgoD --checksum --delete --exclude target --exclude .git {SR}/pristine/ {SR}/repo/")
+        rc, o = sh(f"patch -p1 --no-backup-if-mismatch < {rebased or patch}", cwd=f"{SR}/repo")
         if rebased:
             out["checks"]["rebased_patch"] = "the agent's patch was written against an earlier /repo HEAD; the same change was re-applied by hand to the current HEAD (patch-rebased.diff) for running the checks"
         out["checks"]["patch_applies_to_current_repo_head"] = rc == 0
         if rc == 0:
-            sh("rsync -a --delete --exclude 'target*' /verif/harness/ /tmp/seedrun/harness/")
-            sh("sed -i 's#/repo/crates#/tmp/seedrun/repo/crates#' /tmp/seedrun/harness/Cargo.toml")
-            os.makedirs("/tmp/seedrun/verif/evidence", exist_ok=True)
-            shutil.copy("/verif/known_findings.json", "/tmp/seedrun/verif/known_findings.json")
-            shutil.copy("/verif/properties.jsonl", "/tmp/seedrun/verif/properties.jsonl")
-            if not os.path.islink("/tmp/seedrun/verif/harness"):
-                os.symlink("/tmp/seedrun/harness", "/tmp/seedrun/verif/harness")
-            env = {"CARGO_TARGET_DIR": "/tmp/seedrun/target", "VERIF_DIR": "/tmp/seedrun/verif"}
-            rc, o = sh("cargo build --release --offline --bin trv 2>&1 | tail -5", cwd="/tmp/seedrun/harness", env=env)
-            if not os.path.exists("/tmp/seedrun/target/release/trv") or "error" in o:
+            sh(f"rsync -a --delete --exclude 'target*' /verif/harness/ {SR}/harness/")
+            sh(f"sed -i 's#/repo/crates#{SR}/repo/crates#' {SR}/harness/Cargo.toml")
+            os.makedirs(f"{SR}/verif/evidence", exist_ok=True)
+            shutil.copy("/verif/known_findings.json", f"{SR}/verif/known_findings.json")
+            shutil.copy("/verif/properties.jsonl", f"{SR}/verif/properties.jsonl")
+            if not os.path.islink(f"{SR}/verif/harness"):
+                os.symlink(f"{SR}/harness", f"{SR}/verif/harness")
+            env = {"CARGO_TARGET_DIR": f"{SR}/target", "VERIF_DIR": f"{SR}/verif"}
+            rc, o = sh("cargo build --release --offline --bin trv 2>&1 | tail -5", cwd=f"{SR}/harness", env=env)
+            if not os.path.exists(f"{SR}/target/release/trv") or "error" in o:
                 out["checks"]["build"] = o
             else:
                 for p in props:
                     res = {}
                     for tier in ["quick", "thorough"]:
                         t0 = time.time()
-                        rc, o = sh(f"/tmp/seedrun/target/release/trv {p} {tier}", cwd="/tmp/seedrun/verif", env=env, timeout=7000)
+                        rc, o = sh(f"{SR}/target/release/trv {p} {tier}", cwd=f"{SR}/verif", env=env, timeout=7000)
                         lines = [l[:400] for l in o.splitlines() if l.startswith(("VIOLATION", "KNOWN", "INCONCLUSIVE", p + ":"))]
                         res[tier] = {"exit": rc, "wall_s": round(time.time() - t0, 1), "lines": lines[:6]}
                         out["ran"].append(f"./check {p} {tier}   (harness built against a scratch copy of /repo with the patch applied)")
